@@ -23,6 +23,10 @@ mod c08;
 mod c09;
 mod c10;
 mod c11;
+mod c12;
+mod c13;
+mod c14;
+mod c16;
 mod c19;
 mod codec;
 
@@ -64,6 +68,10 @@ registry! {
     "C09" => c09::C09,
     "C10" => c10::C10,
     "C11" => c11::C11,
+    "C12" => c12::C12,
+    "C13" => c13::C13,
+    "C14" => c14::C14,
+    "C16" => c16::C16,
 }
 
 fn parse_tier(s: &str) -> Tier {
